@@ -99,9 +99,10 @@ int rstr_find(struct rstr *rs, char *s, int n, int *grps, int flg)
 		if (rs->wend && r[len] && (!isword(r + len - 1) || isword(r + len)))
 			continue;
 		if (!match_case(r, rs->str, rs->icase)) {
-			if (n >= 1) {
-				grps[0] = r - s;
-				grps[1] = r - s + len;
+			int i;
+			for (i = 0; i < n; i++) {	/* only group 0 takes part */
+				grps[i * 2] = i ? -1 : r - s;
+				grps[i * 2 + 1] = i ? -1 : r - s + len;
 			}
 			return 0;
 		}
